@@ -197,8 +197,10 @@ def _initial_tree(rng, cfg):
             tags.extend(t)
             d = ["d0", "d1"][p]
             for name, text in files.items():
+                if name == entry:
+                    name = f"p{p}_{name}"  # entry names are unique across the projects of one tree
                 tree[f"{d}/{name}"] = text
-            entries.append(entry)
+            entries.append(f"p{p}_{entry}")
         return tree, entries, ["d0", "d1"][:nproj], tags
     if kind == "corpus":
         corpus = workload.corpus_files()
@@ -237,8 +239,10 @@ def _initial_tree(rng, cfg):
         # per directory so names do not collide.
         d = ["d0", "d1", "d2"][p]
         for name, text in files.items():
+            if name == entry:
+                name = f"p{p}_{name}"  # entry names are unique across the projects of one tree
             tree[f"{d}/{name}"] = text
-        entries.append((d, entry))
+        entries.append((d, f"p{p}_{entry}"))
     # with one project per dir, every entry is found by searching all dirs; shadowing
     # between projects (same file name in two dirs) is deliberate and legal.
     return tree, [e for _, e in entries], ["d0", "d1", "d2"][:nproj], tags
@@ -273,6 +277,14 @@ def gen_ops(rng, cfg):
         h = rng.choice(hash_seeds)
         workers.append(h)
         ops.append({"op": "spawn", "w": k, "hashseed": h})
+    # every entry is built once on the pristine tree, before any edit or fault
+    for e in entries:
+        perm = list(dirs)
+        if rng.random() < 0.5:
+            rng.shuffle(perm)
+        ops.append({"op": "build", "w": rng.randrange(len(workers)), "mode": rng.choices(["embossc", "split", "lib"], weights=cfg["mode_weights"])[0],
+                    "entry": e, "dirs": perm, "fresh_oracle": rng.random() < cfg.get("fresh_oracle_rate", 0.2), "w2": rng.randrange(len(workers)),
+                    "pristine": True})
     unreadable = {}
     n_events = rng.randint(cfg["events"][0], cfg["events"][1])
     weights = dict(cfg["event_weights"])
@@ -385,6 +397,7 @@ def gen_ops(rng, cfg):
 # execution
 
 
+_CLI_MSG_RE = re.compile(r"^(.+?):(\d+):(\d+): (error|warning|note): ")
 _ANON_RE = re.compile(r"(emboss_reserved_anonymous_field_|EmbossReservedAnonymousField)(\d+)")
 
 
@@ -611,6 +624,31 @@ class Farm:
         if "[compiler bug]" in res["stderr"]:
             self.fail("C16", "compiler_bug_location", ["cli"], {"stderr": res["stderr"][-2000:]}, op_index,
                       {"synthetic_location": True})
+        # every "file:line:col: severity: ..." line names a file of this job and a position inside it
+        texts = None
+        for line in res["stderr"].splitlines():
+            m = _CLI_MSG_RE.match(line)
+            if not m:
+                continue
+            f, ln, col = m.group(1), int(m.group(2)), int(m.group(3))
+            if f.startswith("["):
+                continue  # [prelude]; [compiler bug] is reported above
+            if texts is None:
+                texts = self._resolved_texts(op["dirs"])
+            self.count("cli_message_positions_checked")
+            if f not in texts:
+                if f in self.unreadable or any(f == p.split("/", 1)[-1] for p in self.unreadable):
+                    continue  # a file that could not be read: the compiler reports 1:1
+                if ln == 1 and col == 1:
+                    continue
+                self.fail("C16", "message_names_unknown_file", ["cli", m.group(4)], {"line": line, "known": sorted(texts)[:20]}, op_index)
+                continue
+            lines = texts[f].splitlines()
+            ok = (1 <= ln <= len(lines) and 1 <= col <= len(lines[ln - 1]) + 1) or (ln == len(lines) + 1 and col == 1)
+            if not ok:
+                self.fail("C16", "position_outside_file", ["cli", "zero" if ln == 0 else ("past_end" if ln > len(lines) else "column")],
+                          {"line": line, "file_lines": len(lines)}, op_index,
+                          {"line_zero": ln == 0, "past_last_line": ln > len(lines)})
 
     def check_c16_lib(self, r, op_index, op):
         if r.get("exc"):
